@@ -115,7 +115,9 @@ fn host_chain(c: &'static Coin, field: Field, strings: &[Vec<u8>]) -> (ChainBuil
         let mut inp = TxIn::spend([0xd0; 32], i as u32);
         let mut tx = Tx { version: 1, segwit: false, inputs: vec![], outputs: vec![], locktime: i as u32, wide: 0 };
         match field {
-            Field::ScriptPubKey => tx.outputs = vec![TxOut { value: 0, script: s.clone() }, pay(60, 1)],
+            // the injected output (index 1) sits between host outputs of the same transaction, data outputs included: their
+            // rows are not derived from it either
+            Field::ScriptPubKey => tx.outputs = vec![TxOut { value: 0, script: script::op_return(format!("hostpre{}", i).as_bytes()) }, TxOut { value: 0, script: s.clone() }, pay(60, 1), TxOut { value: 0, script: script::op_return(format!("hostpost{}", i).as_bytes()) }],
             Field::ScriptSig => {
                 inp.script_sig = s.clone();
                 tx.outputs = vec![pay(61, 2)];
@@ -163,7 +165,7 @@ fn judge(r: &RunResult, c: &'static Coin, cbn: &str, field: Field, range: &[MBlo
             let mask = |text: &str| -> String {
                 text.lines()
                     .map(|l| {
-                        if is_inj(l) {
+                        if is_inj(l) && l.split(';').nth(1) == Some("1") {
                             // blank the address cell (last column)
                             match l.rfind(';') {
                                 Some(p) => format!("{};<masked>\n", &l[..p]),
@@ -192,10 +194,10 @@ fn judge(r: &RunResult, c: &'static Coin, cbn: &str, field: Field, range: &[MBlo
             let (u, _, _, _) = model::utxo_set(c, range);
             let (name, want): (String, BTreeSet<String>) = if cbn == "balances" {
                 // only addresses of host outputs are judged: the injected outputs carry value 0 and an address that is C05/C06's business
-                let host: Vec<model::Utxo> = u.iter().filter(|x| !injected.contains(&hash_hex(&x.txid)) || x.index != 0).cloned().collect();
+                let host: Vec<model::Utxo> = u.iter().filter(|x| !injected.contains(&hash_hex(&x.txid)) || x.index != 1).cloned().collect();
                 (format!("balances-{}-{}.csv", s, e), model::balances_rows(&host))
             } else {
-                (format!("unspent-{}-{}.csv", s, e), model::unspent_rows(&u).into_iter().filter(|l| !(is_inj(l) && l.split(';').nth(1) == Some("0"))).collect())
+                (format!("unspent-{}-{}.csv", s, e), model::unspent_rows(&u).into_iter().filter(|l| !(is_inj(l) && l.split(';').nth(1) == Some("1"))).collect())
             };
             match r.file_str(&name) {
                 None => v.push(("file-missing".into(), name)),
@@ -204,7 +206,7 @@ fn judge(r: &RunResult, c: &'static Coin, cbn: &str, field: Field, range: &[MBlo
                     let got: BTreeSet<String> = t
                         .lines()
                         .skip(1)
-                        .filter(|l| if cbn == "balances" { host_addrs.contains(l.split(';').next().unwrap_or("")) || !l.ends_with(";0") } else { !(is_inj(l) && l.split(';').nth(1) == Some("0")) })
+                        .filter(|l| if cbn == "balances" { host_addrs.contains(l.split(';').next().unwrap_or("")) || !l.ends_with(";0") } else { !(is_inj(l) && l.split(';').nth(1) == Some("1")) })
                         .map(|x| x.to_string())
                         .collect();
                     if got != want {
@@ -223,10 +225,11 @@ fn judge(r: &RunResult, c: &'static Coin, cbn: &str, field: Field, range: &[MBlo
         }
         _ => {
             let got: Vec<_> = match parse_opreturn(r) {
-                Ok(g) => g.into_iter().filter(|l| !injected.contains(&l.1)).collect(),
+                // of an injected transaction only the lines of its host data outputs are judged
+                Ok(g) => g.into_iter().filter(|l| !injected.contains(&l.1) || l.2.starts_with("hostp")).collect(),
                 Err(e) => return vec![("opreturn-unparsable".into(), e)],
             };
-            let want: Vec<_> = model::opreturn_lines(c, range).into_iter().filter(|l| !injected.contains(&l.txid)).map(|l| (l.height, l.txid, l.data.unwrap_or_default())).collect();
+            let want: Vec<_> = model::opreturn_lines(c, range).into_iter().map(|l| (l.height, l.txid, l.data.unwrap_or_default())).filter(|l| !injected.contains(&l.1) || l.2.starts_with("hostp")).collect();
             if got != want {
                 v.push(("opreturn-lines-differ-outside-injected-field".into(), format!("got {:?} want {:?}", got.iter().take(3).collect::<Vec<_>>(), want.iter().take(3).collect::<Vec<_>>())));
             }
